@@ -543,6 +543,28 @@ func domBy(idom []int, a, b int) bool { // a dominates b
 	}
 }
 
+// Anchor returns n if it is part of a CFG node, otherwise its first descendant (in source order) that is.
+func (f *FuncCFG) Anchor(n ast.Node) ast.Node {
+	if _, ok := f.where[n]; ok {
+		return n
+	}
+	var out ast.Node
+	ast.Inspect(n, func(m ast.Node) bool {
+		if m == nil || out != nil {
+			return false
+		}
+		if _, ok := f.where[m]; ok {
+			out = m
+			return false
+		}
+		return true
+	})
+	if out == nil {
+		return n
+	}
+	return out
+}
+
 // Locate returns (block, index) of the CFG node containing n.
 func (f *FuncCFG) Locate(n ast.Node) ([2]int, bool) {
 	w, ok := f.where[n]
